@@ -829,6 +829,11 @@ class Parser:
             if len(args) == 1:
                 arg = args[0]
             else:
+                if any(isinstance(x, nodes.Slice) for x in args):
+                    self.fail(
+                        "slices are not supported inside a tuple of subscripts",
+                        token.lineno,
+                    )
                 arg = nodes.Tuple(args, "load", lineno=token.lineno)
             return nodes.Getitem(node, arg, "load", lineno=token.lineno)
         self.fail("expected subscript expression", token.lineno)
